@@ -2,43 +2,12 @@
    on the stream, e.g. no_time_quirk, are computable conditions on the File). *)
 From Coq Require Import NArith ZArith List Bool Lia String.
 From FitV Require Import Model.Values Model.Bytes Model.Base Model.Profile Model.Crc Model.Header
-  Model.Components Model.Route Model.Encode Spec.CrcSpec Spec.FitSyntax Spec.Grammar Spec.RoundTrip
+  Model.Components Model.Route Model.Encode Spec.CrcSpec Spec.FitSyntax Spec.Grammar Spec.RoundTrip Spec.EncLayout
   Proofs.Util Proofs.CrcProofs Proofs.EncodeProofs Proofs.C05Grammar Proofs.C06Defs Proofs.C06Lay
   Proofs.StreamDenoteDefs Proofs.StreamDenoteMain Proofs.StreamDenoteFrame Proofs.StreamDenoteDecode
   Gen.Consts Gen.ProfileData Gen.RoutingData.
 Import ListNotations.
 Local Open Scope N_scope.
-
-Definition out_of (be : bool) (m : msg) (pf : pfield) : list N := match field_out be m pf with EOk p => p | _ => [] end.
-Definition parts_of (be : bool) (m : msg) (fields : list pfield) : list (list N) := map (out_of be m) fields.
-
-Definition unit_recs (be : bool) (m : msg) : list record :=
-  match get_encode_mesg_def m with
-  | EOk fs => [rdef_of be (m_num m) fs; rdata_of (parts_of be m fs)]
-  | _ => []
-  end.
-Definition slice_recs (be : bool) (ms : list msg) : list record :=
-  match ms with
-  | [] => []
-  | _ => match collect_fields ms [] with
-         | EOk fs => rdef_of be (m_num (last ms (mk_msg 0 []))) fs :: map (fun m => rdata_of (parts_of be m fs)) ms
-         | _ => []
-         end
-  end.
-Definition slot_recs (be : bool) (multi : bool) (ms : list msg) : list record :=
-  if multi then slice_recs be ms else flat_map (unit_recs be) ms.
-Fixpoint slots_recs (be : bool) (i : nat) (descs : list (string * bool * N)) (slots : list (list msg)) : list record :=
-  match descs, slots with
-  | (_, multi, _) :: dr, s :: sr =>
-      (if Nat.eqb i 3 || Nat.eqb i 4 then [] else slot_recs be multi s) ++ slots_recs be (S i) dr sr
-  | _, _ => []
-  end.
-(* the records of a File: FileId, FileCreator, TimestampCorrelation, then the container's fields *)
-Definition file_recs (f : file) (be : bool) : list record :=
-  match ft_entry (file_type f) with
-  | Some (true, _, descs) => slots_recs be 0 descs (f_slots f)
-  | _ => []
-  end.
 
 Lemma parts_of_eq be m : forall fields parts, Forall2 (fun pf p => field_out be m pf = EOk p) fields parts -> parts = parts_of be m fields.
 Proof.
